@@ -294,12 +294,13 @@ Proof.
       * intros H j o' Hj. rewrite Nat.add_succ_comm. apply H. exact Hj.
 Qed.
 
-(* verification accepts exactly when, among the EXISTING choices, the marked
-   ones are the ones whose output equals the question's *)
-Lemma verify_choice_iff marks outs gen :
-  verify_choice marks outs gen = Ok tt <->
+(* the walk alone (the function before commit 1e7a3a9) accepts exactly when,
+   among the EXISTING choices, the marked ones are the ones whose output equals
+   the question's *)
+Lemma verify_choice_before_fix_iff marks outs gen :
+  verify_choice_before_fix marks outs gen = Ok tt <->
   (forall j o, nth_error outs j = Some o -> (In j marks <-> o = gen)).
-Proof. unfold verify_choice. rewrite verify_choice_from_spec. reflexivity. Qed.
+Proof. unfold verify_choice_before_fix. rewrite verify_choice_from_spec. reflexivity. Qed.
 
 Lemma verify_choice_from_result outs : forall i marks gen,
   verify_choice_from i marks outs gen = Ok tt \/ verify_choice_from i marks outs gen = Err EWrongAnswer.
@@ -308,10 +309,6 @@ Proof.
   destruct (mem_nat i marks && negb (str_eqb gen o)); [right; reflexivity|].
   destruct (negb (mem_nat i marks) && str_eqb gen o); [right; reflexivity|apply IH].
 Qed.
-
-Lemma verify_choice_result marks outs gen :
-  verify_choice marks outs gen = Ok tt \/ verify_choice marks outs gen = Err EWrongAnswer.
-Proof. apply verify_choice_from_result. Qed.
 
 (* the property's statement: the marked choices are PRECISELY the choices
    whose output equals the question's output *)
@@ -322,11 +319,11 @@ Lemma marks_exact_in_range marks outs gen :
   marks_exact marks outs gen -> forall m, In m marks -> (m < List.length outs)%nat.
 Proof. intros H m I. apply H in I. apply nth_error_Some. congruence. Qed.
 
-Lemma verify_choice_full_guarded marks outs gen :
+Lemma verify_choice_before_fix_guarded marks outs gen :
   (forall m, In m marks -> (m < List.length outs)%nat) ->
-  (verify_choice marks outs gen = Ok tt <-> marks_exact marks outs gen).
+  (verify_choice_before_fix marks outs gen = Ok tt <-> marks_exact marks outs gen).
 Proof.
-  intro G. rewrite verify_choice_iff. unfold marks_exact. split.
+  intro G. rewrite verify_choice_before_fix_iff. unfold marks_exact. split.
   - intros H j. split.
     + intro I. pose proof (G _ I) as L. apply nth_error_Some in L.
       destruct (nth_error outs j) as [o|] eqn:N; [|congruence].
@@ -337,32 +334,41 @@ Proof.
     + intro E. subst o. apply H. exact N.
 Qed.
 
-Lemma verify_choice_fixed_iff marks outs gen :
-  verify_choice_fixed marks outs gen = Ok tt <-> marks_exact marks outs gen.
+(* verifyAnswerInRange decides "every mark names an existing choice" *)
+Lemma marks_in_range_spec marks n :
+  marks_in_range marks n = true <-> (forall m, In m marks -> (m < n)%nat).
 Proof.
-  unfold verify_choice_fixed.
-  destruct (forallb (fun m => Nat.ltb m (List.length outs)) marks) eqn:F.
-  - apply verify_choice_full_guarded. intros m I.
-    rewrite forallb_forall in F. apply F in I. apply Nat.ltb_lt in I. exact I.
+  unfold marks_in_range. destruct marks as [|m0 t].
+  - split; [intros _ m []|reflexivity].
+  - rewrite Nat.ltb_lt, list_max_lt by discriminate. rewrite Forall_forall. reflexivity.
+Qed.
+
+(* HEAD: the unguarded statement *)
+Lemma verify_choice_iff marks outs gen :
+  verify_choice marks outs gen = Ok tt <-> marks_exact marks outs gen.
+Proof.
+  unfold verify_choice.
+  destruct (marks_in_range marks (List.length outs)) eqn:F.
+  - apply verify_choice_before_fix_guarded. apply marks_in_range_spec. exact F.
   - split; [discriminate|]. intro H. exfalso.
-    assert (forallb (fun m => Nat.ltb m (List.length outs)) marks = true); [|congruence].
-    apply forallb_forall. intros m I. apply Nat.ltb_lt. eapply marks_exact_in_range; eauto.
+    assert (marks_in_range marks (List.length outs) = true); [|congruence].
+    apply marks_in_range_spec. intros m I. eapply marks_exact_in_range; eauto.
 Qed.
 
-Lemma verify_choice_fixed_result marks outs gen :
-  verify_choice_fixed marks outs gen = Ok tt \/ verify_choice_fixed marks outs gen = Err EWrongAnswer.
+Lemma verify_choice_result marks outs gen :
+  verify_choice marks outs gen = Ok tt \/ verify_choice marks outs gen = Err EWrongAnswer.
 Proof.
-  unfold verify_choice_fixed. destruct (forallb _ marks); [apply verify_choice_result|right; reflexivity].
+  unfold verify_choice. destruct (marks_in_range _ _); [apply verify_choice_from_result|right; reflexivity].
 Qed.
 
-(* the fixed function differs from the current one only on marks out of range *)
-Lemma verify_choice_fixed_agrees marks outs gen :
+(* the fix changed nothing where every mark names an existing choice *)
+Lemma verify_choice_agrees_before_fix marks outs gen :
   (forall m, In m marks -> (m < List.length outs)%nat) ->
-  verify_choice_fixed marks outs gen = verify_choice marks outs gen.
+  verify_choice marks outs gen = verify_choice_before_fix marks outs gen.
 Proof.
-  intro G. unfold verify_choice_fixed.
-  replace (forallb (fun m => Nat.ltb m (List.length outs)) marks) with true; [reflexivity|].
-  symmetry. apply forallb_forall. intros m I. apply Nat.ltb_lt. auto.
+  intro G. unfold verify_choice.
+  replace (marks_in_range marks (List.length outs)) with true; [reflexivity|].
+  symmetry. apply marks_in_range_spec. exact G.
 Qed.
 
 (* ---------- text answers: strings.TrimSpace ---------- *)
